@@ -1,39 +1,14 @@
-/- Helper lemmas for KlogV/Props/GoSpec.lean (end-to-end corollaries: the translated Go source satisfies the specification). Core Lean only. -/
-import KlogV.GoSem.SpecDefs
-import KlogV.Props.GoSrc
+/- Helper lemmas for KlogV/Props/GoSpec15.lean (end-to-end corollaries about the translated date.go / service/period). Core Lean only. -/
+import KlogV.GoSem.SpecDefsCal
 import KlogV.Props.GoCal
 import KlogV.Props.C15
-import KlogV.Props.C16
 namespace KlogV.GoL
 open KlogV.Go KlogV.GoTie
 
-theorem res_ok {α} {x : G α} {a : α} (h : x.res = .ok a) : x = .ok a := by
+theorem res_ok_cal {α} {x : G α} {a : α} (h : x.res = .ok a) : x = .ok a := by
   cases x with
   | ok b => simp only [G.res] at h; cases h; rfl
   | error e => cases e <;> simp [G.res] at h
-
-theorem goTime_lift (t : GoSrc.time) (ht : GoTimeWF t) :
-    ∃ t' : Time, t'.wf = true ∧ t'.toGo = t ∧ t'.offset = goTimeOffset t ∧ t'.is24 = t.format.Use24HourClock := by
-  obtain ⟨h, m, s, ⟨f⟩⟩ := t
-  obtain ⟨h0, h1, m0, m1, hs⟩ := ht
-  simp only at h0 h1 m0 m1 hs
-  refine ⟨⟨h.toNat, m.toNat, s, f⟩, ?_, ?_, ?_, rfl⟩
-  · simp only [Time.wf, Bool.and_eq_true, Bool.or_eq_true, decide_eq_true_eq, beq_iff_eq]
-    omega
-  · simp only [Time.toGo, Int.toNat_of_nonneg h0, Int.toNat_of_nonneg m0]
-  · simp only [Time.offset, goTimeOffset, Int.toNat_of_nonneg h0, Int.toNat_of_nonneg m0]
-    rcases hs with hs | hs | hs <;> subst hs <;> simp <;> omega
-
-/-- a well-formed model time, translated, is well-formed and has the same offset -/
-theorem toGo_timeWF (t : Time) (h : t.wf = true) :
-    GoTimeWF t.toGo ∧ goTimeOffset t.toGo = t.offset := by
-  obtain ⟨hh, m, s, f⟩ := t
-  simp only [Time.wf, Bool.and_eq_true, Bool.or_eq_true, decide_eq_true_eq, beq_iff_eq] at h
-  obtain ⟨⟨h1, h2⟩, hs⟩ := h
-  refine ⟨?_, ?_⟩
-  · simp only [GoTimeWF, Time.toGo]; omega
-  · simp only [Time.offset, goTimeOffset, Time.toGo]
-    rcases hs with (hs | hs) | hs <;> subst hs <;> simp <;> omega
 
 theorem goDate_lift (x : GoCal.date) (hx : GoDateValid x) :
     ∃ x' : Date, x'.valid = true ∧ x'.toGo = x ∧ dayNumber x' = goDayNumber x ∧
@@ -62,56 +37,6 @@ theorem toGo_dateValid (r : Date) (h : r.valid = true) :
 
 /-- The statement as first written claimed an ERROR whenever the sum lies outside the window.  It is false: for `t = 0:01`,
 `d = 9223372036854775807` minutes the hypotheses hold and `t.Plus d` PANICS ("Integer overflow" of the checked addition). -/
-example : GoTimeWF ⟨0, 1, 0, ⟨true⟩⟩ ∧ inRange (9223372036854775807 : Int) = true ∧
-    ((⟨0, 1, 0, ⟨true⟩⟩ : GoSrc.time).Plus ⟨9223372036854775807, ⟨false, 0⟩⟩).res = .panic := by decide
-
-/-- the corrected statement (the refusal is an error only while the checked addition goes through;
-beyond the 64-bit range it is a panic) -/
-theorem go_time_plus (t : GoSrc.time) (d : GoSrc.duration) (ht : GoTimeWF t) (hd : inRange d.minutes = true) :
-    ((-1440 ≤ goTimeOffset t + d.minutes ∧ goTimeOffset t + d.minutes < 2880) →
-        ∃ r, t.Plus d = .ok r ∧ GoTimeWF r ∧ goTimeOffset r = goTimeOffset t + d.minutes ∧ r.format = t.format) ∧
-    (¬ (-1440 ≤ goTimeOffset t + d.minutes ∧ goTimeOffset t + d.minutes < 2880) →
-        inRange (goTimeOffset t + d.minutes) = true → (t.Plus d).res = .err) ∧
-    (inRange (goTimeOffset t + d.minutes) = false → (t.Plus d).res = .panic) := by
-  obtain ⟨t', hwf, rfl, hoff, h24⟩ := goTime_lift t ht
-  rw [← hoff]
-  refine ⟨fun hr => ?_, fun hr hin => ?_, fun hin => ?_⟩
-  · obtain ⟨r', hp, hrwf, hroff, hr24⟩ := (C16.time_plus_spec t' d.minutes hwf).2 hr
-    have hin : inRange (t'.offset + d.minutes) = true := by
-      simp only [inRange, maxInt, Bool.and_eq_true]
-      exact ⟨decide_eq_true (by omega), decide_eq_true (by omega)⟩
-    have h := time_plus_eq t' d hwf hd hin
-    rw [hp] at h
-    refine ⟨r'.toGo, res_ok h, (toGo_timeWF r' hrwf).1, ?_, ?_⟩
-    · rw [(toGo_timeWF r' hrwf).2, hroff]
-    · simp only [Time.toGo, hr24]
-  · have hp := (C16.time_plus_none t' d.minutes hwf).2 hr
-    have h := time_plus_eq t' d hwf hd hin
-    rw [hp] at h
-    exact h
-  · exact time_plus_overflow t' d hwf (fun h => by rw [h.2] at hin; cases hin)
-
-theorem go_range (s e : GoSrc.time) (f : GoSrc.RangeFormat) (hs : GoTimeWF s) (he : GoTimeWF e) :
-    (goTimeOffset s ≤ goTimeOffset e →
-        GoSrc.NewRangeWithFormat s e f = .ok ⟨s, e, f⟩ ∧
-        (⟨s, e, f⟩ : GoSrc.timeRange).Duration = .ok ⟨goTimeOffset e - goTimeOffset s, ⟨false, 0⟩⟩) ∧
-    (¬ goTimeOffset s ≤ goTimeOffset e → (GoSrc.NewRangeWithFormat s e f).res = .err) := by
-  obtain ⟨s', hswf, rfl, hsoff, _⟩ := goTime_lift s hs
-  obtain ⟨e', hewf, rfl, heoff, _⟩ := goTime_lift e he
-  obtain ⟨sp⟩ := f
-  rw [← hsoff, ← heoff]
-  have h := newRange_eq s' e' sp hswf hewf
-  refine ⟨fun hle => ⟨?_, ?_⟩, fun hle => ?_⟩
-  · rw [if_pos ((C16.range_valid_iff s' e').2 hle)] at h
-    exact res_ok h
-  · rw [range_duration_eq s' e' sp hswf hewf, C16.range_minutes]; rfl
-  · rw [if_neg (fun c => hle ((C16.range_valid_iff s' e').1 c))] at h
-    exact h
-
-theorem go_midnightOffset (t : GoSrc.time) (ht : GoTimeWF t) : t.MidnightOffset = .ok ⟨goTimeOffset t, ⟨false, 0⟩⟩ := by
-  obtain ⟨t', hwf, rfl, hoff, _⟩ := goTime_lift t ht
-  rw [midnightOffset_eq t' hwf, hoff]; rfl
-
 theorem go_plusDays (x : GoCal.date) (n : Int) (hx : GoDateValid x) :
     ((0 ≤ goDayNumber x + n ∧ goDayNumber x + n ≤ 3652424) →
         ∃ r, x.PlusDays n = .ok r ∧ GoDateValid r ∧ goDayNumber r = goDayNumber x + n ∧ r.format = x.format) ∧
@@ -126,7 +51,7 @@ theorem go_plusDays (x : GoCal.date) (n : Int) (hx : GoDateValid x) :
     | some r =>
       rw [hp] at h
       obtain ⟨hrv, hrdn⟩ := C15.plusDays_some x' r n hv hp
-      refine ⟨r.toGo, res_ok h, (toGo_dateValid r hrv).1, ?_, ?_⟩
+      refine ⟨r.toGo, res_ok_cal h, (toGo_dateValid r hrv).1, ?_, ?_⟩
       · rw [(toGo_dateValid r hrv).2, hrdn]
       · simp only [Date.toGo, plusDays_dashes x' r n hp]
   · have hp : x'.plusDays n = none := hnone.2 (by omega)
@@ -171,14 +96,14 @@ theorem go_month_period (x : GoCal.date) (hx : GoDateValid x) :
     GoCal.Month.Period ⟨x⟩ =
       .ok ⟨⟨x.year, x.month, 1, ⟨true⟩⟩, ⟨x.year, x.month, daysInInt x.year x.month, ⟨true⟩⟩⟩ := by
   obtain ⟨x', hv, rfl, _, _⟩ := goDate_lift x hx
-  rw [res_ok (month_period_eq x' hv)]
+  rw [res_ok_cal (month_period_eq x' hv)]
   simp only [monthPeriod, Period.toGo, Date.toGo, daysInInt_cast]
   rfl
 
 theorem go_year_period (x : GoCal.date) (hx : GoDateValid x) :
     GoCal.Year.Period ⟨x⟩ = .ok ⟨⟨x.year, 1, 1, ⟨true⟩⟩, ⟨x.year, 12, 31, ⟨true⟩⟩⟩ := by
   obtain ⟨x', hv, rfl, _, _⟩ := goDate_lift x hx
-  rw [res_ok (year_period_eq x' hv)]
+  rw [res_ok_cal (year_period_eq x' hv)]
   simp only [yearPeriod, Period.toGo, Date.toGo]
   rfl
 
@@ -194,11 +119,12 @@ theorem go_quarter_period (x : GoCal.date) (hx : GoDateValid x) :
   obtain ⟨_, _, hs, hu, _, _⟩ := C15.quarterPeriod_spec x' hv
   refine ⟨?_, ?_⟩
   · rw [date_quarter_eq x' hv, hq]; rfl
-  · rw [res_ok (quarter_period_eq x' hv)]
+  · rw [res_ok_cal (quarter_period_eq x' hv)]
     simp only [Period.toGo, hs, hu, Date.toGo]
     have e1 : ((3 * x'.quarter - 2 : Nat) : Int) = 3 * (((x'.m : Int) + 2) / 3) - 2 := by omega
     have e2 : ((3 * x'.quarter : Nat) : Int) = 3 * (((x'.m : Int) + 2) / 3) := by omega
     rw [← daysInInt_cast, e1, e2]
     rfl
+
 
 end KlogV.GoL
